@@ -1,8 +1,8 @@
 (* Properties/C02.v — Skip consumes exactly one well-formed value, on every skipper.
    Only statements; every proof is [exact <lemma>] (Proofs/GrammarP.v, Proofs/C02P.v). *)
 From GV Require Import Lib.Bytes Lib.Res Spec.ThriftGrammar Spec.RefParse Spec.Cursor.
-From GV Require Import Model.BufReader Model.Skip Model.SkipDecoders.
-From GV Require Import Proofs.GrammarP Proofs.C02P Proofs.BufReaderP Proofs.TskipExactP Proofs.PeekExactP.
+From GV Require Import Model.BufReader Model.Skip Model.StreamSkip Model.SkipDecoders.
+From GV Require Import Proofs.GrammarP Proofs.C02P Proofs.BufReaderP Proofs.TskipExactP Proofs.PeekExactP Proofs.BrExactP.
 Open Scope N_scope.
 
 (* ---------- the grammar (shared spec): encodings parse back, exactly ---------- *)
@@ -42,6 +42,19 @@ Theorem C02_bskip_exact : forall t v rest,
   wt t v = true -> (ch v <= 63)%nat -> wf rest ->
   binary_skip (enc v ++ rest) t = Ok (len (enc v)).
 Proof. exact bskip_exact. Qed.
+
+(* BufferReader.Skip over a bufiox reader standing at stream position c where enc v ++ rest
+   begins (RInv: C04's refinement invariant — the reader refines the cursor at c of the stream D
+   delivered by a source with final error F under the fragmentation script CH), for every
+   script that cannot stall and any length of the stream: succeeds, the cursor and ReadLen
+   advance by exactly |enc v| *)
+Theorem C02_bufferreader_exact : forall D F CH c st t v rest,
+  RInv D F CH c st -> may_stall CH = false -> wf D -> drop c D = enc v ++ rest ->
+  wt t v = true -> (ch v <= 63)%nat ->
+  exists st', br_skip st t = (st', Ok tt) /\
+              RInv D F CH (c + len (enc v)) st' /\
+              r_readlen st' = r_readlen st + len (enc v).
+Proof. exact br_skip_exact. Qed.
 
 (* BytesSkipDecoder.Next: returns exactly enc v; the decoder keeps exactly the bytes that follow *)
 Theorem C02_bytes_decoder_exact : forall t v rest,
@@ -103,6 +116,16 @@ Example C02_nonvacuous_peek_decoder :
   RInv (sdata src) (sfinal src) (schunks src) 0 (pk_r (pk_new (new_reader src))) /\
   may_stall (schunks src) = false /\
   (exists s', pk_next (pk_new (new_reader src)) T_I32 = (s', Ok [0; 0; 0; 5]) /\ r_readlen (pk_r s') = 4).
+Proof.
+  split; [apply rinv_new_reader; reflexivity|]. split; [vm_compute; reflexivity|].
+  eexists; split; vm_compute; reflexivity.
+Qed.
+
+Example C02_nonvacuous_bufferreader :
+  let src := {| sdata := [0; 0; 0; 5; 9]; sfinal := e_eof; swith := true; schunks := [1; 0; 3]; spos := 0 |} in
+  RInv (sdata src) (sfinal src) (schunks src) 0 (new_reader src) /\
+  may_stall (schunks src) = false /\
+  (exists st', br_skip (new_reader src) T_I32 = (st', Ok tt) /\ r_readlen st' = 4).
 Proof.
   split; [apply rinv_new_reader; reflexivity|]. split; [vm_compute; reflexivity|].
   eexists; split; vm_compute; reflexivity.
